@@ -729,3 +729,97 @@ def lookalike_case(rng):
             calls.append(c)
     return {"kind": "bed12", "fmt": "gff3", "transcripts": ts, "calls": calls, "look": True,
             "shuffle_seed": rng.randrange(1 << 30) if rng.random() < 0.3 else None}
+
+
+# --- block / thick children recorded on another seqid than the transcript ---------------------------------------------
+ALT_SEQIDS = ["chr1_alt", "chrY", "chr1_KI270706v1_random", "ctg.7-b_hap2", "chrUn"]
+
+
+def altseq_case(rng):
+    """GFF3 transcripts (explicit transcript records) some of whose children are recorded on ANOTHER seqid than the
+    transcript (alternate contig / the other sex chromosome): which child: the first block, the last block, an inner one,
+    a thick feature, or a random subset; coordinates, strand and Parent as usual."""
+    case = bed_case(rng, "gff3")
+    for t in case["transcripts"]:
+        ch = t["children"]
+        if not ch:
+            t["alt"] = []
+            continue
+        order = sorted(range(len(ch)), key=lambda i: ch[i]["start"])
+        exons = [i for i in order if ch[i]["type"] in ("exon", "noncoding_exon")]
+        cds = [i for i in order if ch[i]["type"] == "CDS"]
+        mode = rng.choice(["first block", "last block", "inner block", "thick first", "thick last", "subset", "all", "subset",
+                           "beyond"])
+        picked = []
+        if mode == "first block" and exons:
+            picked = [exons[0]]
+        elif mode == "last block" and exons:
+            picked = [exons[-1]]
+        elif mode == "inner block" and len(exons) >= 3:
+            picked = [rng.choice(exons[1:-1])]
+        elif mode == "thick first" and cds:
+            picked = [cds[0]]
+        elif mode == "thick last" and cds:
+            picked = [cds[-1]]
+        elif mode == "all":
+            picked = list(range(len(ch)))
+        elif mode == "beyond" and exons:
+            # one more block feature, recorded on the other seqid, lying past the transcript's end / before its start
+            if rng.random() < 0.5 or t["start"] < 12:
+                s0 = t["end"] + rng.choice([1, 2, 40])
+                ch.append({"type": ch[exons[0]]["type"], "start": s0, "end": s0 + rng.randrange(0, 30)})
+            else:
+                e0 = t["start"] - rng.choice([1, 2, 5])
+                ch.append({"type": ch[exons[0]]["type"], "start": max(1, e0 - rng.randrange(0, 5)), "end": e0})
+            picked = [len(ch) - 1]
+        if not picked:
+            mode = "subset"
+            picked = [i for i in range(len(ch)) if rng.random() < 0.4] or [rng.randrange(len(ch))]
+        alt = rng.choice([s for s in ALT_SEQIDS if s != t["seqid"]])
+        for i in picked:
+            ch[i]["seqid"] = alt if rng.random() < 0.8 else rng.choice([s for s in ALT_SEQIDS if s != t["seqid"]])
+        t["alt"] = [mode]
+    case["alt"] = True
+    return case
+
+
+# --- bed12 given a Feature object that is not a fresh copy of the database record ------------------------------------
+def new_extent(rng, t):
+    """Other coordinates for the transcript record: exactly the span of its exons, or off by one / by more on either end."""
+    ex = [c for c in t["children"] if c["type"] in ("exon", "noncoding_exon")]
+    lo = min(c["start"] for c in ex) if ex else t["start"]
+    hi = max(c["end"] for c in ex) if ex else t["end"]
+    for _ in range(30):
+        r = rng.random()
+        if r < 0.45:
+            s, e = lo, hi
+        elif r < 0.6:
+            s, e = max(1, lo - rng.choice([1, 2, 50])), hi
+        elif r < 0.75:
+            s, e = lo, hi + rng.choice([1, 2, 50])
+        elif r < 0.9:
+            s, e = max(1, t["start"] - rng.randrange(0, 60)), t["end"] + rng.randrange(0, 60)
+        else:
+            s = rng.randrange(max(1, lo - 5), hi + 1)
+            e = rng.randrange(s, hi + 6)
+        if (s, e) != (t["start"], t["end"]):
+            return s, e
+    return t["start"], t["end"] + 1
+
+
+def stale_case(rng):
+    """A GFF3 database, one transcript of it, and a Feature object of that transcript that is not a fresh copy of the
+    record: how = replace (fetched, then the record replaced with other coordinates through update(merge_strategy=
+    'replace')), older_handle (the same on a file database, object fetched through a handle opened before the replace,
+    bed12 asked of both handles), edited (start/end of the fetched object assigned by the caller, database untouched)."""
+    case = bed_case(rng, "gff3")
+    ti = rng.randrange(len(case["transcripts"]))
+    t = case["transcripts"][ti]
+    how = rng.choice(["replace", "replace", "older_handle", "edited"])
+    s, e = new_extent(rng, t)
+    case["calls"] = [c for c in case["calls"] if c["t"] == ti][:2]
+    for c in case["calls"]:
+        c["to_bed12"] = False
+    case.update({"kind": "stale", "how": how, "t": ti, "new": [s, e], "file": how == "older_handle" or rng.random() < 0.2,
+                 "new_score": rng.choice([None, None, "5", "."])})
+    return case
